@@ -187,6 +187,85 @@ def _const_expr(v, depth=0):
     return False
 
 
+def negate(t):
+    """Logical negation of a test in negation normal form for single comparisons (is / is not, == / !=, in / not in, < / >=)."""
+    if isinstance(t, ast.UnaryOp) and isinstance(t.op, ast.Not):
+        return t.operand
+    if isinstance(t, ast.Compare) and len(t.ops) == 1:
+        flip = {ast.Is: ast.IsNot, ast.IsNot: ast.Is, ast.Eq: ast.NotEq, ast.NotEq: ast.Eq, ast.In: ast.NotIn, ast.NotIn: ast.In}
+        o = type(t.ops[0])
+        if o in flip:
+            return ast.copy_location(ast.Compare(left=t.left, ops=[flip[o]()], comparators=t.comparators), t)
+    return ast.copy_location(ast.UnaryOp(op=ast.Not(), operand=t), t)
+
+
+def _canon_guard_tail(tree):
+    """E0 normalisation:   if c: return E ; S ; return E      ==      if not c: S ; return E
+    (an early return that duplicates the function's final return, S free of other exits)."""
+    for fn in ast.walk(tree):
+        if not isinstance(fn, (ast.FunctionDef, ast.AsyncFunctionDef)):
+            continue
+        b = fn.body
+        if len(b) < 3 or not isinstance(b[-1], ast.Return) or b[-1].value is None:
+            continue
+        tail = ast.dump(b[-1].value)
+        for i, st in enumerate(b[:-1]):
+            if isinstance(st, ast.If) and not st.orelse and len(st.body) == 1 and isinstance(st.body[0], ast.Return) and st.body[0].value is not None \
+                    and ast.dump(st.body[0].value) == tail:
+                mid = b[i + 1:-1]
+                if not mid or any(isinstance(x, (ast.Return, ast.Yield, ast.YieldFrom)) for m_ in mid for x in ast.walk(m_)):
+                    continue
+                new = ast.copy_location(ast.If(test=negate(st.test), body=mid, orelse=[]), st)
+                fn.body = b[:i] + [new, b[-1]]
+                break
+
+
+def _canon_loops(tree):
+    """E0 normalisation of two list idioms into the loop they abbreviate:
+         L.extend(e for t in it) / L.extend([e for t in it])   ->   for t in it: L.append(e)
+         L = [e for t in it]                                      ->   L = [] ; for t in it: L.append(e)
+       (single generator, no condition).  The only difference is that the loop variable stays bound afterwards."""
+    def loop(listname, comp, at):
+        g = comp.generators[0]
+        call = ast.Call(func=ast.Attribute(value=ast.Name(id=listname, ctx=ast.Load()), attr="append", ctx=ast.Load()), args=[comp.elt], keywords=[])
+        f = ast.For(target=g.target, iter=g.iter, body=[ast.Expr(value=call)], orelse=[])
+        for n in ast.walk(f):
+            if not hasattr(n, "lineno"):
+                ast.copy_location(n, at)
+        for n in ast.walk(g.target):
+            if isinstance(n, ast.Name):
+                n.ctx = ast.Store()
+        return f
+
+    def simple(c):
+        return isinstance(c, (ast.ListComp, ast.GeneratorExp)) and len(c.generators) == 1 and not c.generators[0].ifs and not c.generators[0].is_async
+
+    def fix(stmts, in_func):
+        out = []
+        for st in stmts:
+            for f in ("body", "orelse", "finalbody"):
+                v = getattr(st, f, None)
+                if isinstance(v, list) and v and isinstance(v[0], ast.stmt):
+                    setattr(st, f, fix(v, in_func or isinstance(st, (ast.FunctionDef, ast.AsyncFunctionDef))))
+            if isinstance(st, (ast.FunctionDef, ast.AsyncFunctionDef, ast.ClassDef)) or not in_func:
+                out.append(st)
+                continue
+            if isinstance(st, ast.Expr) and isinstance(st.value, ast.Call) and isinstance(st.value.func, ast.Attribute) and st.value.func.attr == "extend" \
+                    and isinstance(st.value.func.value, ast.Name) and len(st.value.args) == 1 and not st.value.keywords and simple(st.value.args[0]):
+                out.append(loop(st.value.func.value.id, st.value.args[0], st))
+                continue
+            if isinstance(st, ast.Assign) and len(st.targets) == 1 and isinstance(st.targets[0], ast.Name) and isinstance(st.value, ast.ListComp) and simple(st.value) \
+                    and not any(isinstance(x, ast.Name) and x.id == st.targets[0].id for x in ast.walk(st.value)):
+                empty = ast.copy_location(ast.Assign(targets=[st.targets[0]], value=ast.copy_location(ast.List(elts=[], ctx=ast.Load()), st)), st)
+                out.append(empty)
+                out.append(loop(st.targets[0].id, st.value, st))
+                continue
+            out.append(st)
+        return out
+    tree.body = fix(tree.body, False)
+    ast.fix_missing_locations(tree)
+
+
 def _module_literals(tree):
     """Module-level names bound exactly once, at top level, to a numeric literal (never rebound, never declared global)."""
     counts, vals = {}, {}
@@ -275,6 +354,9 @@ class Module:
             raise AnalysisError(f"cannot parse {relpath}: {e}")
         _drop_noise(self.tree)
         _canon_compare(self.tree)
+        if os.environ.get("VSA_CANON_LOOPS", "1") == "1":
+            _canon_loops(self.tree)
+        _canon_guard_tail(self.tree)
         self.literals = _module_literals(self.tree)
         if self.literals:
             _InlineLits(self.literals).visit(self.tree)
@@ -509,7 +591,26 @@ class Repo:
                 sub = self.modules.get(f"{imp[0]}.{imp[1]}")
                 if sub is not None:
                     return sub.funcs.get(f.attr)
+        if isinstance(f, ast.Attribute):
+            # accessor hop: x.spec.momd(..), dset.spec._peak(..): a method name defined by exactly one class of the package and
+            # not also a method of xarray / numpy objects
+            um = self._unique_methods()
+            return um.get(f.attr)
         return None
+
+    def _unique_methods(self):
+        if getattr(self, "_um", None) is None:
+            from . import xrmodel as X
+            seen = {}
+            for m in self.modules.values():
+                for c in m.classes.values():
+                    for name, fi in c.methods.items():
+                        seen.setdefault(name, []).append(fi)
+            lib = set(getattr(X, "XR_METHODS", ())) | set(getattr(X, "MUTATING_METHODS", ())) | {
+                "sum", "mean", "max", "min", "std", "where", "sel", "isel", "interp", "copy", "read", "write", "close", "get", "items",
+                "keys", "values", "update", "plot", "to_netcdf", "sortby", "rename", "transpose", "dir", "freq", "smooth", "split"}
+            self._um = {n: v[0] for n, v in seen.items() if len(v) == 1 and n not in lib and not n.startswith("__")}
+        return self._um
 
     # ---- lookup -------------------------------------------------------------------
     def module(self, name):
@@ -544,8 +645,8 @@ class Repo:
             raise AnalysisError(f"class {qual} not found (anchor vanished)")
         return m.classes[cn]
 
-    def all_funcs(self):
-        skip = getattr(self, "inlined_helpers", ())
+    def all_funcs(self, include_inlined=False):
+        skip = () if include_inlined else getattr(self, "inlined_helpers", ())
         for m in self.modules.values():
             for fi in m.all_funcs():
                 if fi.qualname not in skip:
